@@ -204,6 +204,11 @@ func (c *pctx) pattern(t *rapid.T, depth int, bound *[]string) string {
 				*bound = append(*bound, v)
 				parts[i] = v + ": " + c.pattern(t, depth+1, bound)
 			case 2:
+				if rapid.IntRange(0, 2).Draw(t, "patinterp") == 0 {
+					c.feat("pattern-keyinterp")
+					parts[i] = "\"" + pick(t, "lit", []string{"", "a", "b"}) + "\\(" + c.child().sub(t, pPipe) + ")\": " + c.pattern(t, depth+1, bound)
+					break
+				}
 				parts[i] = "\"" + pick(t, "field", fieldNames) + "\": " + c.pattern(t, depth+1, bound)
 			case 3:
 				c.feat("pattern-keyexpr")
@@ -463,7 +468,17 @@ func (c *pctx) object(t *rapid.T) string {
 		case 6:
 			key = "\"k\\(" + c.sub(t, pPipe) + ")\""
 		default:
-			parts[i] = pick(t, "field", fieldNames) // {a} shorthand
+			switch rapid.IntRange(0, 3).Draw(t, "shorthand") {
+			case 0:
+				parts[i] = "\"" + pick(t, "field", fieldNames) + "\"" // {"a"} shorthand
+			case 1:
+				c.feat("object-shorthand-interp")
+				parts[i] = "\"" + pick(t, "lit", []string{"", "a", "b"}) + "\\(" + c.sub(t, pPipe) + ")\"" // {"a\(f)"}: key computed once, value .[key]
+			case 2:
+				parts[i] = pick(t, "kwfield", []string{"if", "and", "or", "then", "reduce", "def", "as", "__loc__"}) + ": " + c.sub(t, pPost) // keyword keys
+			default:
+				parts[i] = pick(t, "field", fieldNames) // {a} shorthand
+			}
 			continue
 		}
 		parts[i] = key + ": " + c.sub(t, pPost)
